@@ -90,7 +90,11 @@ def bounded(ctx, b):
     other = sets["styled"]
     # a first pass: what every writer makes of every set before the run has written anything else (outputs must not
     # depend on what the PROCESS has written before - not even through state kept in a library the writers use)
+    pristine = {name: samples.dump(sets[name]) for name in names}         # (plain data: taken before anything is written)
     first_pass = {(name, W.__name__, k): write_or_error(W(**opts), sets[name]) for name in names for W in WRITERS for k, opts in enumerate(OPTIONS[W])}
+    for name in names:
+        b.case(("first_pass_leaves_the_sets_alone", name), samples.dump(sets[name]) == pristine[name],
+               {"set": name, "changed_by": "the first pass of all writers over it"}, sample={"set": name})
     for W2 in WRITERS:
         write_or_error(W2(), _LEADING_BLANKS)
     for name in names:
